@@ -121,7 +121,7 @@ KERNELS = [
       vectors=[[0], [MIN_DAY], [MAX_DAY], [-1], [1], [11016], [-719528]]),
     K("c01::k_step", pre=lambda a: in_range(a[0], MIN_DAY, MAX_DAY - 1),
       claims=[("L2 to_date(n+1) is the calendar successor of to_date(n)", succ_claim)],
-      bounds={0: (MIN_DAY, MAX_DAY - 1)}, split=(0, 256), tier="thorough", timeout=600),
+      bounds={0: (MIN_DAY, MAX_DAY - 1)}, split=(0, 256), tier="deep", timeout=600),
     K("c01::k_epoch_step", pre=valid,
       claims=[("L2' to_epoch_day(tomorrow(d)) == to_epoch_day(d) + 1 (tomorrow == calendar successor, proved under L7)",
                lambda a, o: And(opt_eq_date(Out(VEnum(o[1].v.discr, {"Some": {0: o[1].some[0].v}} if o[1].has_variant("Some") else {}, "Option", o[1].v.dmap)),
@@ -212,7 +212,7 @@ KERNELS = [
       bounds={0: (-9999, 9999), 1: (1, 12), 2: (1, 31), 4: (1, 7)}, split=(0, {"quick": 4, "thorough": 16})),
     K("c01::k_date_iso", pre=valid,
       claims=[("L9 Date::iso_week_date == (year of the week's Thursday, ordinal of that week, weekday); iso.date() is the identity", iso_claim)],
-      bounds={0: (-9999, 9999), 1: (1, 12), 2: (1, 31)}, split=(0, 64), tier="thorough", timeout=900),
+      bounds={0: (-9999, 9999), 1: (1, 12), 2: (1, 31)}, split=(0, 64), tier="deep", timeout=900),
     K("c01::k_iso_new", pre=lambda a: in_range(a[2], 1, 7),
       claims=[("L9 ISOWeekDate::new Ok iff 1 <= week <= weeks(year) and the date is in range; date(iso) and back are consistent", iso_new_claim)],
       bounds={0: (-32768, 32767), 1: (-128, 127), 2: (1, 7)}, split=(0, {"quick": 16, "thorough": 64}), timeout=300),
@@ -253,12 +253,12 @@ _new = []
 for _k in KERNELS:
     _short = _k.name.split("::")[-1]
     if _short in _THOROUGH_ONLY:
-        _k.tier = "thorough"
+        _k.tier = "deep"
         _k.split = (0, 64)
         _k.timeout = 900
     if _short in _HEAVY and _k.tier == "quick":
         _new.append(_narrow(_k, _HEAVY[_short]))
-        _k.tier = "thorough"
+        _k.tier = "deep"
         _k.split = (0, 64)
         _k.timeout = 900
     _new.append(_k)
